@@ -49,6 +49,9 @@ func newEnv() *env.Env {
 	e.Define("vst", ST{A: 5, B: "b"})
 	e.Define("vsp", &ST{A: 6, B: "c"})
 	e.Define("vtl", []int64{4, 5, 6})
+	e.Define("vns", []int64(nil))          // nil values of concrete types
+	e.Define("vnm", map[string]int64(nil))
+	e.Define("vnp", (*ST)(nil))
 	e.Define("id", func(x interface{}) interface{} { return x })
 	e.Define("g1", func(a interface{}) interface{} { return fmt.Sprintf("%T", a) })
 	e.Define("gi", func(a int64) int64 { return a + 100 })
